@@ -247,7 +247,8 @@ func finish(cases []Case, out string, st *Stats, start time.Time) {
 	// of 8 is re-run first (4 at a time, 60 s each); the rest keep their verdict if every sampled one is confirmed, and are re-run too otherwise.
 	again := []Case{}
 	for _, c := range cases {
-		if r := results[c.ID]; r == "HANG" || r == "CRASH" {
+		// (also results that embed a HANG of an inner wall-clock deadline, e.g. "DIFF\tFILE HANG\t…" of the C07 ops)
+		if r := results[c.ID]; r == "HANG" || r == "CRASH" || strings.Contains(r, "HANG") {
 			again = append(again, c)
 		}
 	}
@@ -256,6 +257,7 @@ func finish(cases []Case, out string, st *Stats, start time.Time) {
 		if len(sample) > 8 {
 			sample = again[:8]
 		}
+		os.Setenv("VERIF_RERUN", "1") // workers started from here on use the long inner deadlines
 		second := runCases(sample, 4, 60*time.Second)
 		confirmed := 0
 		for id, r := range second {
